@@ -261,8 +261,16 @@ class Run:
         if kind == "forged_cell":
             from ipv8_rust_tunnels import generate_session_keys
             keys = generate_session_keys(os.urandom(64))
-            msg = b"\x01" + b"\x01\x05\x05\x05\x05\x15\xb3" + b"\x01\x00\x00\x00\x00\x00\x00" + b"d4:evile"
-            cell = w.prefix + b"\x00" + struct.pack(">I", cid) + b"\x00\x00" + keys.encrypt_str(msg, op[3] % 2)
+            if (op[3] >> 3) & 1:
+                # shaped like data coming back from outside (destination 0.0.0.0:0, an origin): for an originator entry
+                msg = b"\x01" + b"\x01\x00\x00\x00\x00\x00\x00" + b"\x01\x09\x09\x09\x09\x00\x09" + b"d4:evile"
+            else:
+                msg = b"\x01" + b"\x01\x05\x05\x05\x05\x15\xb3" + b"\x01\x00\x00\x00\x00\x00\x00" + b"d4:evile"
+            if (op[3] >> 2) & 1:
+                # the unauthenticated plaintext flag set, the message not encrypted at all
+                cell = w.prefix + b"\x00" + struct.pack(">I", cid) + b"\x01\x00" + msg
+            else:
+                cell = w.prefix + b"\x00" + struct.pack(">I", cid) + b"\x00\x00" + keys.encrypt_str(msg, op[3] % 2)
             src = adjacent.address if (op[3] & 2 and adjacent is not None) else ("6.6.6.6", 6000)
             before = w.routing_digest()
             sent_before = sum(len(t.sent) for t in self.loop.transports)
@@ -274,7 +282,7 @@ class Run:
                     sum(len(v) for v in self.raw.values()) != raw_before:
                 self.fail("J1", "forged_cell:" + ekind, "a cell forged without the circuit's keys caused a delivery")
             self.nontrivial = True
-            self.executed.append(("forged_cell", ekind))
+            self.executed.append(("forged_cell", ekind, "plainflag" if (op[3] >> 2) & 1 else "garbage"))
         elif kind == "create_live":
             from ipv8.messaging.anonymization.payload import CreatePayload
             sender = outsider if op[3] % 2 == 0 or adjacent is None else adjacent
